@@ -161,18 +161,19 @@ def valEqual : Val → Val → Bool
   | _, _ => false
 
 /-- `StoryState::write_json` -/
-def writeState (root : Obj) (s : StoryState) : Out Json :=
+def writeState (root : Obj) (ss : StoryState) : Out Json :=
+  let s := ss.core
   let flows : Out (List (String × Json)) := mapOut (fun (nf : String × Flow) =>
       match writeFlow root nf.2 with
       | .ok j => Out.ok (nf.1, j)
       | .err k m => .err k m
-      | .panic p => .panic p) ((s.flow.name, s.flow) :: (s.namedFlows.getD []))
+      | .panic p => .panic p) ((s.flow.name, s.flow) :: (ss.namedFlows.getD []))
   let vars : Out (List (String × Json)) := mapOut (fun (kv : String × Val) =>
       match writeObj (.val kv.2) with
       | .ok j => Out.ok (kv.1, j)
       | .err k m => .err k m
       | .panic p => .panic p)
-    (s.globals.filter (fun kv => match alGet s.defaultGlobals kv.1 with
+    (s.vars.globals.filter (fun kv => match alGet s.defaultGlobals kv.1 with
       | some d => !valEqual kv.2 d
       | none => true))
   match flows, vars, writeObjs s.evalStack.reverse with
@@ -375,6 +376,8 @@ def andThen (r : Out Unit × StoryState) (f : StoryState → Out Unit × StorySt
   | (.ok (), s) => f s
   | other => other
 
+def onCore (s : StoryState) (f : Core → Core) : StoryState := { s with core := f s.core }
+
 /-- `StoryState::load_json_obj`.  A failing load leaves the state as far as it got. -/
 def loadStateObj (root : Obj) (s : StoryState) (j : Json) : Out Unit × StoryState :=
   match get? j "inkSaveVersion" with
@@ -401,7 +404,7 @@ def loadStateObj (root : Obj) (s : StoryState) (j : Json) : Out Unit × StorySta
                 if ftok.asObj?.isNone then (bad "Invalid flow object", st)
                 else match readFlow root name ftok with
                   | .ok fl =>
-                    if single then go rest { st with flow := fl }
+                    if single then go rest (onCore st (fun c => { c with flow := fl }))
                     else go rest { st with namedFlows := some (alSet (st.namedFlows.getD []) name fl) }
                   | .err k m => (.err k m, st)
                   | .panic p => (.panic p, st)
@@ -412,7 +415,7 @@ def loadStateObj (root : Obj) (s : StoryState) (j : Json) : Out Unit × StorySta
                   match (get? j "currentFlowName").bind Json.asStr? with
                   | some cur =>
                     (match alGet nf cur with
-                    | some fl => (.ok (), { st with flow := fl, namedFlows := some (alRemove nf cur) })
+                    | some fl => (.ok (), { (onCore st (fun c => { c with flow := fl })) with namedFlows := some (alRemove nf cur) })
                     | none => (.ok (), st))
                   | none => (.ok (), st)
                 else (.ok (), st)
@@ -431,10 +434,10 @@ def loadStateObj (root : Obj) (s : StoryState) (j : Json) : Out Unit × StorySta
                   | .ok _ => bad "Variable is not a value"
                   | .err k m => .err k m
                   | .panic p => .panic p)
-                | none => .ok kv) s1.defaultGlobals with
-            | .ok gl => (.ok (), { s1 with globals := gl })
+                | none => .ok kv) s1.core.defaultGlobals with
+            | .ok gl => (.ok (), onCore s1 (fun c => { c with vars := c.vars.replaceGlobals gl }))
             -- `global_variables.clear()` happened before the failing entry
-            | .err k m => (.err k m, { s1 with globals := [] })
+            | .err k m => (.err k m, onCore s1 (fun c => { c with vars := c.vars.replaceGlobals [] }))
             | .panic p => (.panic p, s1))
         | none => (.ok (), s1)) (fun s2 =>
       andThen (match get? j "evalStack" with
@@ -442,7 +445,7 @@ def loadStateObj (root : Obj) (s : StoryState) (j : Json) : Out Unit × StorySta
           (match etok.asArr? with
           | none => (bad "Invalid evaluation stack", s2)
           | some toks => match readObjs toks with
-            | .ok objs => (.ok (), { s2 with evalStack := objs.reverse })
+            | .ok objs => (.ok (), onCore s2 (fun c => { c with evalStack := objs.reverse }))
             | .err k m => (.err k m, s2)
             | .panic p => (.panic p, s2))
         | none => (.ok (), s2)) (fun s3 =>
@@ -452,37 +455,37 @@ def loadStateObj (root : Obj) (s : StoryState) (j : Json) : Out Unit × StorySta
             | some t => Path.parse t.toList
             | none => Path.empty
           (match pointerAtPath root path with
-          | .ok p => (.ok (), { s3 with divertedPtr := p })
+          | .ok p => (.ok (), onCore s3 (fun c => { c with divertedPtr := p }))
           | .err k m => (.err k m, s3)
           | .panic p => (.panic p, s3))
         | none => (.ok (), s3)) (fun s4 =>
       andThen (match get? j "visitCounts" with
         | some t => (match readIntDict t "Invalid visit counts object" with
-          | .ok d => (.ok (), { s4 with visitCounts := d })
+          | .ok d => (.ok (), onCore s4 (fun c => { c with visitCounts := d }))
           | .err k m => (.err k m, s4)
           | .panic p => (.panic p, s4))
         | none => (.ok (), s4)) (fun s5 =>
       andThen (match get? j "turnIndices" with
         | some t => (match readIntDict t "Invalid turn indices object" with
-          | .ok d => (.ok (), { s5 with turnIndices := d })
+          | .ok d => (.ok (), onCore s5 (fun c => { c with turnIndices := d }))
           | .err k m => (.err k m, s5)
           | .panic p => (.panic p, s5))
         | none => (.ok (), s5)) (fun s6 =>
       andThen (match get? j "turnIdx" with
         | some t => (match Load.asI64 t with
-          | some n => (.ok (), { s6 with turnIndex := wrapI32 n })
+          | some n => (.ok (), onCore s6 (fun c => { c with turnIndex := wrapI32 n }))
           | none => (bad "Invalid current turn index", s6))
         | none => (.ok (), s6)) (fun s7 =>
       andThen (match get? j "storySeed" with
         | some t => (match Load.asI64 t with
-          | some n => (.ok (), { s7 with storySeed := wrapI32 n })
+          | some n => (.ok (), onCore s7 (fun c => { c with storySeed := wrapI32 n }))
           | none => (bad "Invalid story seed", s7))
         | none => (.ok (), s7)) (fun s8 =>
       match get? j "previousRandom" with
       | some t => (match Load.asI64 t with
-        | some n => (.ok (), { s8 with previousRandom := wrapI32 n })
+        | some n => (.ok (), onCore s8 (fun c => { c with previousRandom := wrapI32 n }))
         | none => (bad "Invalid previous random value", s8))
-      | none => (.ok (), { s8 with previousRandom := 0 })))))))))
+      | none => (.ok (), onCore s8 (fun c => { c with previousRandom := 0 }))))))))))
 
 /-- `Story::load_state` on an already parsed document (`none` = not JSON). -/
 def loadState (st : Story) (doc : Option Json) : Out Unit × Story :=
